@@ -374,6 +374,16 @@ theorem isHash_temp (s : String) : isHash ("#" ++ s) = true := by
 /-- names an assignment `op1 = op2` may touch: its left-hand side, and `#` names -/
 def assignT (op1 : SV V) (m : String) : Prop := op1 = .tok m ∨ isHash m = true
 
+theorem coordTarget_eq {op1 : SV V} {c : String} (h : coordTarget op1 = some c) : op1 = .tok c := by
+  cases op1 with
+  | tok s =>
+    simp only [coordTarget] at h
+    split at h
+    · cases h; rfl
+    · cases h
+  | num v => simp [coordTarget] at h
+  | none => simp [coordTarget] at h
+
 theorem frame_assignOp (o : Ops V) (op1 op2 : SV V) :
     Frame (assignT op1) (fun _ => True) (assignOp (σ := ATab V) o op1 op2) := by
   unfold assignOp
@@ -406,18 +416,28 @@ theorem frame_assignOp (o : Ops V) (op1 op2 : SV V) :
         | none => frame_auto
     | num v => frame_auto
     | none => frame_auto
-  · refine frame_bind (P := fun _ => True) (frame_hasSV op1) (fun b1 _ => ?_)
-    refine frame_ite _ (fun _ => ?_) (fun _ => ?_)
-    · refine frame_bind (P := fun _ => True) (frame_toFloat o op2) (fun v _ => ?_)
-      cases op1 with
-      | tok s1 => exact frame_weaken (frame_update s1 _) (fun m hm => Or.inl (by rw [hm])) (fun _ _ => trivial)
-      | num v => frame_auto
-      | none => frame_auto
-    · refine frame_bind (P := fun _ => True) (frame_toFloat o op2) (fun v _ => ?_)
-      cases op1 with
-      | tok s1 => exact frame_weaken (frame_create s1 _) (fun m hm => Or.inl (by rw [hm])) (fun _ _ => trivial)
-      | num v => frame_auto
-      | none => frame_auto
+  · cases hct : coordTarget op1 with
+    | some c =>
+      have hc := coordTarget_eq hct
+      simp only
+      refine frame_bind (P := fun _ => True) frame_size (fun k _ => ?_)
+      refine frame_forEach _ (fun i _ => ?_)
+      refine frame_bind (P := fun _ => True) (frame_toFloat o op2) (fun v _ => ?_)
+      exact frame_weaken (frame_setObs c i v) (fun m hm => Or.inl (by rw [hm, hc])) (fun _ _ => trivial)
+    | none =>
+      simp only
+      refine frame_bind (P := fun _ => True) (frame_hasSV op1) (fun b1 _ => ?_)
+      refine frame_ite _ (fun _ => ?_) (fun _ => ?_)
+      · refine frame_bind (P := fun _ => True) (frame_toFloat o op2) (fun v _ => ?_)
+        cases op1 with
+        | tok s1 => exact frame_weaken (frame_update s1 _) (fun m hm => Or.inl (by rw [hm])) (fun _ _ => trivial)
+        | num v => frame_auto
+        | none => frame_auto
+      · refine frame_bind (P := fun _ => True) (frame_toFloat o op2) (fun v _ => ?_)
+        cases op1 with
+        | tok s1 => exact frame_weaken (frame_create s1 _) (fun m hm => Or.inl (by rw [hm])) (fun _ _ => trivial)
+        | num v => frame_auto
+        | none => frame_auto
 
 /-- a value pushed back on the evaluator's stack is never a user name: a number, `None`, or a `#k` temporary -/
 def TempRes (r : SV V) : Prop := ∀ m, r = .tok m → isHash m = true
